@@ -865,6 +865,31 @@ pub fn gen_c10(thorough: bool, rng: &mut Rng, out: &mut Vec<String>) {
             push(out, &b);
         }
     }
+    // several LONG records in one stream, in rising, falling and mixed sizes (a reader that resizes or reuses a buffer
+    // between records sees each combination), complete and cut inside the last long record
+    {
+        let runs: &[&[usize]] = &[&[5000, 6000, 7000], &[20000, 25000, 30000], &[4098, 4100, 8200], &[600, 1200, 2400, 4800, 9600, 19200, 38400], &[30000, 25000, 20000, 26000],
+            &[4096, 4097, 4095, 8193, 8191], &[65000, 100, 65500, 64000], &[1000, 3000, 2000, 5000, 4000, 7000]];
+        for sizes in runs {
+            let mut lib = GdsLibrary::new("l");
+            lib.name = "N".repeat(sizes[0] & !1);
+            let mut st = GdsStruct::new("S".repeat(sizes[1] & !1));
+            for (k, sz) in sizes[2..].iter().enumerate() {
+                let n = (sz / 8).max(4).min(8190);
+                let mut xy: Vec<GdsPoint> = (0..n as i32 - 1).map(|i| GdsPoint::new(i, (i * i) % 97)).collect();
+                xy.push(xy[0].clone());
+                if k % 2 == 0 { st.elems.push(GdsElement::GdsBoundary(GdsBoundary { layer: 1, datatype: 0, xy, ..Default::default() })); }
+                else { st.elems.push(GdsElement::GdsPath(GdsPath { layer: 2, datatype: 0, xy, ..Default::default() })); }
+                st.elems.push(GdsElement::GdsTextElem(GdsTextElem { string: "t".repeat((sz / 2) & !1).chars().take(500 + sz / 4).collect(), layer: 3, texttype: 0, xy: GdsPoint::new(0, 0), ..Default::default() }));
+            }
+            lib.structs.push(st);
+            if let Ok(b) = write_bytes(&lib) {
+                push(out, &b);
+                push(out, &b[..b.len() - 9]);
+                push(out, &b[..b.len() / 2]);
+            }
+        }
+    }
     for base in &bases {
         push(out, base);
         // every truncation point
